@@ -32,7 +32,9 @@ Hows(l) ==
   \cup {[name |-> "sort", col |-> "k", desc |-> d] : d \in BOOLEAN} \cup {[name |-> "sort", col |-> "v", desc |-> FALSE]}
   \cup {[name |-> "subset_list", idx |-> x] : x \in {y \in {<<1, 0>>, <<0, 2, 1>>, <<2, 0>>, <<3, 0, 2, 1>>} : \A i \in 1..Len(y) : y[i] < NRows(l.tab)}}
   \cup {[name |-> "copy"]} \cup {[name |-> "binning", b |-> 2]}
-Vias == {"asnumpy", "load_each", "load_iter", "dask", "align", "score", "apply", "landscape"}
+  \* save + reload of the molecules; CSV cannot keep the dtype of an all-null column (C13 covers CSV)
+  \cup (IF l.bin = 1 THEN {[name |-> "roundtrip", fmt |-> f] : f \in {"parquet"}} ELSE {})
+Vias == {"asnumpy", "load_each", "load_iter", "dask", "align", "score", "apply", "landscape", "average"}
 GOps == {[name |-> "none"], [name |-> "align"], [name |-> "head", n |-> 1], [name |-> "tail", n |-> 1],
          [name |-> "filter", pred |-> [op |-> "ge", col |-> "k", c |-> 1]], [name |-> "sample", n |-> 1]}
 Ops(l) ==
